@@ -49,7 +49,7 @@ func (s *verSys) checkVerListing() ([]*engine.Violation, int64) {
 		mkeys = append(mkeys, k)
 	}
 	sort.Strings(mkeys)
-	for _, d := range []string{"", "/"} {
+	for _, d := range []string{"", "/", "cb"} { // "cb": more than one character, occurs in no key
 		for _, p := range []string{"", "a", "b", "b/"} {
 			if d != "" && strings.HasPrefix(p, d) {
 				continue
@@ -282,6 +282,24 @@ func (s *verSys) checkVerListing() ([]*engine.Violation, int64) {
 						bad("marker+filter", "skipped", "markers (%q,%q): %s follows the marker in %s but is not returned: %s", e.Key, e.ID, missing, renderVer(full.Entries), renderVer(pg.Entries))
 						break
 					}
+				}
+			}
+			// a key marker beyond the last key: nothing follows it, and a response that
+			// claims otherwise has to say where to continue
+			for _, q := range []string{drv.Q("key-marker", "zzz"), joinQ("max-keys=1", drv.Q("key-marker", "zzz"))} {
+				pg := s.w.ListVersions(s.bucket, joinQ(base, q))
+				evals++
+				if pg.Panic != "" || pg.Status != 200 {
+					bad("marker-beyond-end", fmt.Sprintf("status=%d:%s%s", pg.Status, pg.Code, panicSigOf(pg.Panic)), "%s", q)
+					break
+				}
+				if pg.IsTruncated && (pg.NextKey == "" || pg.NextVer == "") {
+					bad("marker-beyond-end", "no-next-markers", "%s: IsTruncated=true but NextKeyMarker=%q NextVersionIdMarker=%q", q, pg.NextKey, pg.NextVer)
+					break
+				}
+				if len(pg.Entries) > 0 || pg.IsTruncated {
+					bad("marker-beyond-end", "not-empty", "%s: %s trunc=%v although no key sorts after the marker", q, renderVer(pg.Entries), pg.IsTruncated)
+					break
 				}
 			}
 			// client-invented marker pairs naming existing versions
